@@ -176,14 +176,6 @@ SpecPoly == InitPoly /\ [][NextPoly]_pvars
 Finished == pc = "finished"
 
 -----------------------------------------------------------------------------
-RECURSIVE DFact(_)
-DFact(n) == IF n <= 0 THEN 1 ELSE n * DFact(n - 2)
-MeanMon(m) == IF m[3] # 0 \/ m[1] % 2 = 1 \/ m[2] % 2 = 1 THEN Zero
-              ELSE Norm(DFact(m[1] - 1) * DFact(m[2] - 1), DFact(m[1] + m[2] + 1))
-RECURSIVE MeanOver(_, _)
-MeanOver(p, SS) == IF SS = {} THEN Zero
-                   ELSE LET m == CHOOSE x \in SS : TRUE IN RAdd(RMul(p[m], MeanMon(m)), MeanOver(p, SS \ {m}))
-Mean(p) == MeanOver(p, DOMAIN p)
 (* vorticity and divergence tendencies are a curl and a divergence: zero global mean, atom by atom *)
 ZeroMeanTendencies == Finished => \A k \in 1..K :
    /\ Mean(tend.vorticity[k]) = Zero
